@@ -336,7 +336,60 @@ def leaf_table(F):
             rows = cand
             fallback = fb
             break
+    if not rows:
+        rows, fallback = _leaf_table_array(h, typeids)
     return b, rows, fallback
+
+
+def _leaf_table_array(h, typeids):
+    """The same table written as an array of (TypeId, name) pairs searched with `.iter().find(|(id, _)| *id == x.type_id)`;
+    the fallback is what happens when nothing is found (let-else block / None arm)."""
+    for arr in hir.nodes(h, "array"):
+        cand = []
+        for e in arr["elems"]:
+            e = hir.strip(e)
+            if e.get("k") != "tup" or len(e.get("elems") or []) != 2:
+                cand = []
+                break
+            a, bb = [hir.strip(x) for x in e["elems"]]
+            if bb.get("k") != "lit":
+                a, bb = bb, a
+            loc = hir.res_local(hir.peel_refs(a))
+            if bb.get("k") == "lit" and loc in typeids:
+                cand.append((typeids[loc], bb["v"], e["line"]))
+            else:
+                cand = []
+                break
+        if len(cand) < 3:
+            continue
+        holder = None
+        for l in hir.nodes(h, "letstmt"):
+            if l.get("init") is not None and hir.strip(l["init"]) is arr or (l.get("init") and any(n is arr for n in hir.walk(l["init"])) and l["pat"].get("k") == "bind" and not l.get("els")):
+                holder = l["pat"].get("local")
+
+        def mentions(n):
+            return any(x is arr or (holder is not None and x.get("k") == "path" and hir.res_local(x) == holder) for x in hir.walk(n))
+
+        # the search: find(closure) whose closure compares with `==`
+        ok_search = False
+        for m in hir.nodes(h, "mcall"):
+            if m["m"] in ("find", "find_map", "position") and mentions(m["recv"]) and m["args"]:
+                cl = hir.strip(m["args"][0])
+                body = hir.strip(cl.get("body") or {}) if cl.get("k") == "closure" else {}
+                if body.get("k") == "bin" and body.get("op") == "==":
+                    ok_search = True
+        if not ok_search:
+            continue
+        for l in hir.nodes(h, "letstmt"):
+            if l.get("els") and l.get("init") and mentions(l["init"]):
+                return cand, {"body": l["els"], "line": l["line"], "pat": l["pat"]}
+        for m in hir.nodes(h, "match"):
+            if mentions(m["e"]):
+                for arm in m["arms"]:
+                    if hir.pat_paths(arm["pat"]) in (["_"], ["None"], ["std::option::Option::None"]) or hir.pat_desc(arm["pat"]).endswith("None"):
+                        return cand, arm
+        return cand, None
+    return [], None
 
 
 DOC = "docs/source/reference/rust_interoperability.rst"
